@@ -208,10 +208,11 @@ def close_fd(fd):
 
 def bad_message(kind, typ, payload):
     """The complete bad message standing in for a message (typ, payload)."""
-    if kind == "wrong_version":
-        return hdr(typ, len(payload), version=2) + payload
+    other = b"\x01" + struct.pack("<q", 7777777)         # a well-formed value nobody asked for: a VM that
+    if kind == "wrong_version":                          # swallows the bad message shows it in its output
+        body = other if typ == RESULT else payload
+        return hdr(typ, len(body), version=2) + body
     if kind == "wrong_type":
-        other = b"\x01" + struct.pack("<q", 7777777)     # a well-formed value nobody asked for
         return hdr(0x55, len(other)) + other
     if kind == "len_over_max":
         return hdr(typ, COP_MAX_PAYLOAD + 1) + payload
